@@ -34,3 +34,4 @@ macro_rules! ser_hash { ($($n:ident),* $(,)?) => { verus!{ $(
 ser_hash!(Ed25519KeyHash, ScriptHash);
 pub type SubCoin = UnitInterval;
 ser_opaque!(PlutusData);
+pub type SlotBigNum = BigNum;
